@@ -72,6 +72,40 @@ PROPS = {
         "assumptions": COMMON_ASSUMPTIONS + ["loopback TCP in the sandbox behaves like TCP"],
         "min_outcomes": 4,
     },
+    "C07": {'level': 'exploration',
+     'technique': 'exhaustive enumeration of requests (param segments over a collision-forcing token alphabet plus per-width boundary values; Content-Type x body '
+                  'x query tables) against every handler signature of a compile-time catalogue, each dispatched on the real read/route/extract/send path and '
+                  'compared slot by slot with independent reference decoders',
+     'engine': 'vmc',
+     'level_text': 'Bounded exhaustive exploration of configuration x input space: one application holding 642 handler signatures (13 param types in the forms P '
+                   'and (P,), also as one-param handlers on two-param routes; all 169 (P1,P2) pairs; all 210 sets of 1..4 extractors from {Query, JSON, '
+                   'URLEncoded, Multipart, Text} x {required, Option}, each under the no-param form and one of the three param forms, so that all 20 IntoHandler '
+                   'impls are instantiated). Param segments: every string of <=5 (quick) / <=7 (thorough) tokens over {0,1,9,-,+,a,%31,%FF} plus 81 boundary '
+                   'values (MIN-1, MIN, MAX, MAX+1 of every width, 2^64, 2^64+1, 10^40, leading zeros, signs, escaped digits); all pairs of segments of <=1 '
+                   '(quick) / <=3 (thorough) tokens or boundary values for two-param routes; 22 Content-Types (absent, exact, +charset, upper-case, longer type '
+                   'with the same prefix, a different type mentioning the type in a parameter, a different type) x 20 bodies x 16 query strings for extractor '
+                   'routes. Every case runs on the real Request::read, Router::handle, FromParam/FromRequest extraction and Response::send; handlers echo their '
+                   'typed arguments.',
+     'level_note': "Trusted: Rust's str::parse for integers, serde_json for JSON bodies, the harness's own percent-decoder, split-on-&/= decoder and strict "
+                   "multipart text-field reader, the independent HTTP response parser. Where the statement is silent (leading '+', &str with an escaped segment, "
+                   'upper-case Content-Type, matching Content-Type with an empty body, Option<Query> without a query string, urlencoded input outside the clean '
+                   'key=value grammar) every defensible outcome is admitted and the case is counted as ambiguous. Not covered: requests larger than the 1 KiB '
+                   'connection buffer, multipart decoding beyond four hand-made bodies (C10), urlencoded corner cases (C09), the release-profile (wrapping) '
+                   'flavour of the arithmetic defects.',
+     'jobs': {'quick': 8, 'thorough': 16},
+     'assumptions': ['features rt_tokio,sse,openapi on x86-64 Linux; other runtimes are not built',
+                     'the harness build uses opt-level 2 with debug-assertions and overflow-checks on (profile `verif`), hooks enabled by --cfg ohkami_verif',
+                     'values outside the stated alphabets / bounds are not covered (DESIGN.md section 9)',
+                     'applications are assembled at run time through the add-only hook DynRouting (same register_handlers / merge_another / Dir code a tuple of '
+                     'routing items goes through)',
+                     "requests are delivered as one read on a fresh connection (segmentation is C06's concern)",
+                     'reference: integers = str::parse::<T>() on the RFC 3986 percent-decoded segment; JSON = serde_json into an equally shaped type; '
+                     'Query/URLEncoded = split on & and first =, percent-decoding, u16 via str::parse; Multipart = strict RFC 7578 text fields; Text = UTF-8 check',
+                     "a request 'carries' a body item iff its Content-Type's type/subtype equals the extractor's media type (parameters allowed) and the body is "
+                     'not empty',
+                     'the build has overflow-checks on: arithmetic overflow inside the subject shows as a panic (the wrapping flavour of the same defects is not '
+                     'run)'],
+     'min_outcomes': 8},
     "C10": {'level': 'exploration',
      'technique': 'bounded exhaustive enumeration (model-checking family, no sampling): every form of <=3 parts over a part alphabet x boundary x encoder option '
                   'set x target struct; bodies come from an independent RFC 7578 encoder, are decoded by the real serde_multipart::from_bytes (one family through '
